@@ -270,7 +270,7 @@ pub fn gen_read_script(
     match mode {
         ChunkMode::AllAtOnce => {
             if pend_permil > 0 && rng.below(1000) < pend_permil {
-                s.push(ReadEv::Pending(pick_wake(rng)));
+                push_read_pending(rng, &mut s);
             }
         }
         ChunkMode::All1 => {
@@ -278,7 +278,7 @@ pub fn gen_read_script(
             let mut pos = 0;
             while pos < len && s.len() < budget {
                 if rng.below(1000) < pend_permil {
-                    s.push(ReadEv::Pending(pick_wake(rng)));
+                    push_read_pending(rng, &mut s);
                 }
                 s.push(ReadEv::Chunk(1));
                 pos += 1;
@@ -289,7 +289,7 @@ pub fn gen_read_script(
             let mut pos = 0;
             while pos < len && s.len() < budget {
                 if rng.below(1000) < pend_permil {
-                    s.push(ReadEv::Pending(pick_wake(rng)));
+                    push_read_pending(rng, &mut s);
                 }
                 let n = rng.urange(1, k);
                 s.push(ReadEv::Chunk(n));
@@ -301,7 +301,7 @@ pub fn gen_read_script(
             let mut n = 1;
             while pos < len && s.len() < budget {
                 if rng.below(1000) < pend_permil {
-                    s.push(ReadEv::Pending(pick_wake(rng)));
+                    push_read_pending(rng, &mut s);
                 }
                 s.push(ReadEv::Chunk(n));
                 pos += n;
@@ -324,7 +324,7 @@ pub fn gen_read_script(
                 };
                 if target > pos {
                     if rng.below(1000) < pend_permil {
-                        s.push(ReadEv::Pending(pick_wake(rng)));
+                        push_read_pending(rng, &mut s);
                     }
                     s.push(ReadEv::Chunk(target - pos));
                     pos = target;
@@ -333,6 +333,34 @@ pub fn gen_read_script(
         }
     }
     (s, tail)
+}
+
+/// Sink style: bit 0 vectored-capable; bits 1-2 number of not-ready results per flush / shutdown.
+pub fn gen_writer_style(rng: &mut Rng) -> u8 {
+    let flush = if rng.chance(1, 3) { rng.range(1, 3) as u8 } else { 0 };
+    rng.below(2) as u8 | (flush << 1)
+}
+
+/// A not-ready result, now and then followed by a run of further ones (a peer that stays
+/// not-ready for a long time: 2..40 in a row with no byte moved in between).
+pub fn push_read_pending(rng: &mut Rng, s: &mut Vec<ReadEv>) {
+    s.push(ReadEv::Pending(pick_wake(rng)));
+    if rng.chance(1, 6) {
+        let k = *rng.pick(&[1usize, 1, 2, 3, 7, 20, 24, 33, 40]);
+        for _ in 0..k {
+            s.push(ReadEv::Pending(pick_wake(rng)));
+        }
+    }
+}
+
+pub fn push_write_pending(rng: &mut Rng, s: &mut Vec<WriteEv>) {
+    s.push(WriteEv::Pending(pick_wake(rng)));
+    if rng.chance(1, 6) {
+        let k = *rng.pick(&[1usize, 1, 2, 3, 7, 20, 24, 33, 40]);
+        for _ in 0..k {
+            s.push(WriteEv::Pending(pick_wake(rng)));
+        }
+    }
 }
 
 pub fn gen_cancel(rng: &mut Rng, script: &[ReadEv], permil: u64) -> Vec<bool> {
@@ -355,7 +383,7 @@ pub fn gen_write_script(rng: &mut Rng, len: usize, pend_permil: u64, eintr_permi
     let mut pos = 0;
     while pos < len && s.len() < 256 {
         if rng.below(1000) < pend_permil {
-            s.push(WriteEv::Pending(pick_wake(rng)));
+            push_write_pending(rng, &mut s);
         }
         if rng.below(1000) < eintr_permil {
             s.push(WriteEv::Interrupted);
